@@ -34,7 +34,7 @@ def oracle(case):
     refmodel.raise_mine(problems, ("C02",))
     classes = dc.classify(case, text, exp)
     nt = any(k.startswith("invalid") or k == "malformed" for k in exp.kinds) or "mixed-batch" in classes
-    return Info(nt=nt, classes=classes, key=(text, case["version"], case["jsonclass"], case["mode"]),
+    return Info(nt=nt, classes=classes, key=(text, case["version"], case["jsonclass"], case["mode"], case.get("handlers")),
                 sample={"body": text[:300], "version": case["version"], "mode": case["mode"], "reply": (out or "")[:200]})
 
 
@@ -84,7 +84,10 @@ def oracle_http(case):
         pass
     registry = refmodel.Registry(jsonclass=case["jsonclass"])
     disp, dm, registry, cfg = refmodel.make_dispatcher(case["version"], case["jsonclass"], "funcs", registry)
-    expected = disp._marshaled_dispatch(text)
+    try:
+        expected = disp._marshaled_dispatch(text)
+    except Exception as ex:
+        fail("C02/dispatcher-raised:%s" % type(ex).__name__, "_marshaled_dispatch raised %s: %s" % (type(ex).__name__, str(ex)[:200]), text[:300])
     n_before = len(registry.log)
     try:
         status, headers, reply, reads = post_to_handler(disp, raw, case.get("sizes", []))
@@ -126,7 +129,8 @@ def same_json_or_text(a, b):
 
 @st.composite
 def http_cases(draw):
-    case = draw(st.one_of(dc.grammar_cases(modes=["funcs"]), dc.damage_cases()))
+    case = draw(st.one_of(dc.grammar_cases(modes=["funcs"]), dc.grammar_cases(modes=["funcs"]), dc.damage_cases(), dc.damage_cases(),
+                          dc.long_cases(20000)))
     case["sizes"] = draw(st.lists(st.integers(1, 200), max_size=6))
     return case
 
@@ -171,6 +175,11 @@ def descriptor_values(draw):
     return d
 
 
+OTHER_ENTRIES = [1, "x", None, [], {}, [1], True, {"jsonrpc": "2.0", "method": "echo"}, {"jsonrpc": "2.0", "id": 7, "method": "echo", "params": [1]},
+                 {"jsonrpc": "2.0", "id": 8, "method": "nope"}, {"method": "echo", "id": 9, "params": []}, {"jsonrpc": "2.0", "id": 10, "method": 7},
+                 {"jsonrpc": "2.0", "id": 11, "method": "boom"}]
+
+
 @st.composite
 def descriptor_cases(draw):
     dv = draw(descriptor_values())
@@ -184,7 +193,16 @@ def descriptor_cases(draw):
     elif wrap == "top":
         req = dict(dv, jsonrpc="2.0", id=1, method="echo")
     elif wrap == "batch":
-        req = [{"jsonrpc": "2.0", "id": 1, "method": "echo", "params": [1]}, {"jsonrpc": "2.0", "id": 2, "method": "echo", "params": [dv]}]
+        # the descriptor's carrier at any position among entries of every kind
+        others = st.lists(st.sampled_from(OTHER_ENTRIES), max_size=3)
+        carrier = draw(st.sampled_from([
+            {"jsonrpc": "2.0", "id": 2, "method": "echo", "params": [dv]},
+            {"jsonrpc": "2.0", "method": "echo", "params": [dv]},
+            {"method": "echo", "id": 3, "params": {"a": dv}},
+            {"jsonrpc": "2.0", "id": dv, "method": "echo"},
+            [dv], dv, {"a": dv},
+        ]))
+        req = draw(others) + [carrier] + draw(others)
     elif wrap == "id":
         req = {"jsonrpc": "2.0", "id": dv, "method": "echo", "params": []}
     else:
@@ -204,6 +222,9 @@ SUBS = [
     Sub("damage-exhaustive", oracle, enumerate=dc.exhaustive_damage_cases,
         shards={"quick": 8, "thorough": 8}, time_cap={"quick": 120, "thorough": 900},
         what="every truncation/deletion and 16 substitutions+insertions at every index of 8 valid texts"),
+    Sub("long", oracle, strategy=lambda tier: dc.long_cases(),
+        budget={"quick": 1500, "thorough": 40000}, shards={"quick": 6, "thorough": 16},
+        what="bodies of 100..70 000 bytes (sizes clustered around powers of two), padded with 1..4-byte characters at every alignment: garbage, truncated, no-request, valid and batch shapes"),
     Sub("http", oracle_http, strategy=lambda tier: http_cases(),
         budget={"quick": 3000, "thorough": 60000}, shards={"quick": 6, "thorough": 16},
         what="the same bodies through the real do_POST handler: status 200, exact Content-length, body equals the dispatcher text"),
